@@ -1345,13 +1345,24 @@ ssize_t ICACHE_FLASH_ATTR mqtt_unpack_publish_response(struct mqtt_response *mqt
     response->qos_level = (fixed_header->control_flags & MQTT_PUBLISH_QOS_MASK) >> 1;
     response->retain_flag = fixed_header->control_flags & MQTT_PUBLISH_RETAIN;
 
+    /* make sure that qos is not 3 [Spec MQTT-3.3.1-4] */
+    if (response->qos_level == 3) {
+        return MQTT_ERROR_PUBLISH_FORBIDDEN_QOS;
+    }
+
     /* make sure that remaining length is valid */
-    if (mqtt_response->fixed_header.remaining_length < 4) {
+    if (mqtt_response->fixed_header.remaining_length < 2) {
         return MQTT_ERROR_MALFORMED_RESPONSE;
     }
 
     /* parse variable header */
     response->topic_name_size = __mqtt_unpack_uint16(buf);
+
+    /* the topic name (and the packet id if qos > 0) must fit in the remaining length */
+    if ((uint32_t) response->topic_name_size + (response->qos_level > 0 ? 4u : 2u)
+            > mqtt_response->fixed_header.remaining_length) {
+        return MQTT_ERROR_MALFORMED_RESPONSE;
+    }
     buf += 2;
     response->topic_name = buf;
     buf += response->topic_name_size;
